@@ -13,6 +13,9 @@ from .vals import (S, Ref, Obj, PySeq, Fixed, View, Exc, Raised, Fn, ModuleV, Cl
                    const_int, exc_isa)
 
 
+BOX_HOOKS = []     # fn(engine, ctx, v, 'seq'|'dict', content): facts about spec functions over a freshly boxed container
+
+
 class HObj:
     """Heap cell for a local mutable object: kind in {'list','map','rec'}.  alias_of: the state path this value is a
     live view of (a write through it cannot be modelled by value: outside the subset)."""
@@ -239,6 +242,8 @@ class Engine:
                 p = z3.Int('bx_p')
                 ctx.assume(z3.ForAll([p], z3.Implies(z3.And(p >= 0, p < n), smt.vseq(v)[p] == self.seq_at(ctx, val, p)),
                                      patterns=[smt.vseq(v)[p]]))
+            for hook in BOX_HOOKS:
+                hook(self, ctx, v, 'seq', val)
             return v
         if isinstance(val, HRef):
             h = ctx.heap[val.id]
@@ -253,6 +258,8 @@ class Engine:
                 for k, item in h.data.items():
                     ctx.assume(smt.vhas(v, k))
                     ctx.assume(smt.vget(v, k) == self.to_v(ctx, item))
+                for hook in BOX_HOOKS:
+                    hook(self, ctx, v, 'dict', h.data)
                 return v
             v = smt.fresh('obj', V)
             ctx.assume(smt.kind(v) == smt.K_OTHER, smt.truthy(v))
